@@ -890,7 +890,7 @@ func main() {
 				lawsCfg = "laws_thorough.cfg"
 			}
 			lawsDone = make(chan *common.TLCResult, 1)
-			lw := env.Workers / 2
+			lw := env.Workers / 4 // the design check gets a quarter of the workers, the trace validators share the rest
 			if lw < 1 {
 				lw = 1
 			}
@@ -1007,7 +1007,7 @@ func main() {
 	var wgT sync.WaitGroup
 	workers := env.Workers / par
 	if lawsDone != nil {
-		workers = env.Workers / (2 * par)
+		workers = (env.Workers - env.Workers/4) / par
 	}
 	if workers < 1 {
 		workers = 1
